@@ -9,6 +9,7 @@
 #include <sys/socket.h>
 #include <sys/stat.h>
 #include <unistd.h>
+#include <errno.h>
 #include <limits>
 #include "vf.h"
 #include "aslx.h"
@@ -426,29 +427,34 @@ static void run_mem(const Prepared& P, const std::string& kase) {
 }
 
 // --- Socket -> Socket over an AF_UNIX socketpair (the real Socket_::write / read / available)
+// Single-threaded: the oracle side drains the pair after every item (many tiny sends would otherwise fill the
+// kernel's send buffer and block), then puts the stream back with one plain send() for the reading phase.
+static void drain(int fd, std::string& to) {
+	char buf[4096]; ssize_t k;
+	while ((k = recv(fd, buf, sizeof buf, MSG_DONTWAIT)) > 0) to.append(buf, (size_t)k);
+}
 static void run_pair(const Prepared& P, const std::string& kase) {
 	const Seq& q = P.seq;
 	CNT(C_CH[3]); CNT(C_EVAL);
 	int fd[2];
 	if (socketpair(AF_UNIX, SOCK_STREAM, 0, fd) != 0) { fprintf(stderr, "c16: socketpair failed\n"); _exit(2); }
+	struct timeval tv; tv.tv_sec = 20; tv.tv_usec = 0; // safety net only: a send that blocks becomes a harness error, never a verdict
+	setsockopt(fd[0], SOL_SOCKET, SO_SNDTIMEO, &tv, sizeof tv);
 	bool bytes_ok = true;
 	{
 		asl::Socket w(fd[0]), r(fd[1]); // each Socket_ owns and closes its descriptor
 		if (q[0].ord != O_NATIVE) { w.setEndian(ORDASL[q[0].ord]); r.setEndian(ORDASL[q[0].ord]); }
+		std::string got;
 		for (size_t i = 0; i < q.size(); i++) {
 			if (i && q[i].ord != q[i - 1].ord) w.setEndian(ORDASL[q[i].ord]);
 			write_item(w, q[i].it, P.nat[i]);
+			if (w.error() != 0 && (errno == EAGAIN || errno == EWOULDBLOCK)) { fprintf(stderr, "c16: socketpair send buffer exhausted in %s\n", kase.c_str()); _exit(2); }
+			drain(fd[1], got);
+			if (bytes_ok && got.size() != P.off[i]) { bytes_ok = false; report_len("pair", P, i, (long)got.size(), kase); }
 		}
 		if (asan_check("pair", "writing", kase)) bytes_ok = false;
-		// oracle side: look at what is in flight without consuming it
-		std::string got(P.exp.size() + 4096, '\0');
-		ssize_t k = recv(fd[1], &got[0], got.size(), MSG_PEEK | MSG_DONTWAIT);
-		got.resize(k < 0 ? 0 : (size_t)k);
-		if (got != P.exp) {
-			if (bytes_ok) report_bytes("pair", P, got, kase);
-			if (!got.empty() && recv(fd[1], &got[0], got.size(), MSG_DONTWAIT) < 0) {}
-			if (!P.exp.empty() && send(fd[0], P.exp.data(), P.exp.size(), MSG_NOSIGNAL) < 0) {}
-		}
+		if (got != P.exp && bytes_ok) report_bytes("pair", P, got, kase);
+		if (!P.exp.empty() && send(fd[0], P.exp.data(), P.exp.size(), MSG_NOSIGNAL) != (ssize_t)P.exp.size()) { fprintf(stderr, "c16: socketpair refill failed\n"); _exit(2); }
 		shutdown(fd[0], SHUT_WR); // an over-read then sees end of stream instead of blocking
 		for (size_t i = 0; i < q.size(); i++) {
 			if (i && q[i].ord != q[i - 1].ord) r.setEndian(ORDASL[q[i].ord]);
@@ -456,7 +462,7 @@ static void run_pair(const Prepared& P, const std::string& kase) {
 			if (got != P.nat[i]) { report_value("pair", "Socket >>", P, i, got, kase); break; }
 			if (i + 1 == q.size()) {
 				char c; ssize_t rest = recv(fd[1], &c, 1, MSG_PEEK | MSG_DONTWAIT);
-				if (rest != 0 || r.error() != 0) report_rest("pair", "Socket", (long)rest, kase);
+				if (rest != 0) report_rest("pair", "Socket", (long)rest, kase); // (the error flag is not demanded: a zero-length read sets it)
 			}
 		}
 	}
